@@ -179,7 +179,7 @@ loop:
 // unsubscribed channel is closed (once), every other subscription is open, still routed, and gets the next event
 // exactly once; nothing panics
 func routerUnsubStorm(rng *rand.Rand, w *Writer) {
-	const nsub, nvict = 1500, 40
+	const nsub, nvict = 12000, 120 // long look-ups, many at once: the goroutines' look-ups overlap even when few processors are free
 	r := server.NewEventRouter[int, int](2)
 	chans := make([]<-chan int, nsub)
 	for i := range chans {
@@ -188,7 +188,7 @@ func routerUnsubStorm(rng *rand.Rand, w *Writer) {
 	// victims among the last routes (the longest lookups), never two for the same channel
 	victim := map[int]bool{}
 	for len(victim) < nvict {
-		victim[nsub-1-rng.Intn(120)] = true
+		victim[nsub-1-rng.Intn(600)] = true
 	}
 	panics := make(chan string, nvict)
 	start := make(chan struct{})
